@@ -32,8 +32,11 @@ class L extends K { constructor(a){ probe(); super(a); } }
 function newer(a){ return new L(a).a; }
 async function asy(a){ await null; if (a > 5) throw 9; return a; }
 function jobber(a){ asy(a).then(function(v){ print('then ' + v); }, function(e){ print('rej ' + e); }); Promise.resolve().then(function(){ return deep(0); }); return 1; }
+function genRet(){ var it = gen(); it.next(); return JSON.stringify(it.return(7)) + JSON.stringify(gen().next()); }
+function asyOk(){ (async function(){ return 42; })().then(function(v){ print('r2 ' + v); }, function(e){ print('rej2 ' + e); }); asy(2).then(function(v){ print('res ' + v); }, function(e){ print('rej ' + e); }); return 0; }
 function json(){ try { JSON.parse('{bad'); } catch (e) { return JSON.stringify({a:[1,{b:2}]}); } }
 """
+BATTERY2 = "var itb = gen(); itb.next(); print(JSON.stringify(itb.return(7))); var itc = gen(); print(JSON.stringify(itc.next())); asy(2).then(function(v){ print('res ' + v); }, function(e){ print('rej ' + e); }); (async function(){ return 42; })().then(function(v){ print('r2 ' + v); }, function(e){ print('rej2 ' + e); });"
 BATTERY = "print([ok(1), argThrow(null), genUse(), json(), newer(2), [3,1,2].sort().join(), typeof deep, (function(){ try { thrower(); } catch (e) { return e.message; } })()].join(' '));"
 
 ENTRIES = [
@@ -43,7 +46,10 @@ ENTRIES = [
     ("call genUse", True), ("call evalThrow", False), ("call reent", True), ("call reentLimit", False), ("call applyer", False),
     ("call newer 9", False), ("call newer 1", True), ("construct K 9", False), ("construct L 3", True), ("call jobber 9", True),
     ("call jobber 1", True), ("jobs", True), ("call json", True), ("call notdefined", False), ("construct ok 1", True),
+    ("call genRet", True), ("call genRet", True), ("ASYNC-UNIT", True), ("ASYNC-UNIT", True),
 ]
+# entries whose answer must not depend on what the context went through before (no persistent effects, no pending jobs)
+IMPURE = {"jobs", "call jobber 9", "call jobber 1"}
 EVALS = [
     ("thrower(1,2,3)", False), ("for(;;){}", False), ("deep(0)", False), ("ok(41)", True), ("nested(3)", True),
     ("try { deep(0) } catch (e) { print('caught') } finally { print('fin') }", False), ("syntax error here (", False),
@@ -63,7 +69,11 @@ def gen_history(r, n):
             src, ok = EVALS[r() % len(EVALS)]
             h.append(("eval " + hexs(src), ok))
         else:
-            h.append(ENTRIES[r() % len(ENTRIES)])
+            e = ENTRIES[r() % len(ENTRIES)]
+            if e[0] == "ASYNC-UNIT":
+                h += [("jobs", True), ("call asyOk", True), ("jobs!", True)]
+            else:
+                h.append(e)
     return h
 
 
@@ -89,9 +99,23 @@ def run(ck):
             for op, ok in h:
                 if variant == "okonly" and not ok:
                     continue
-                lines.append(op); meta.append((hi, variant, "entry"))
+                lines.append(op.rstrip("!")); meta.append((hi, variant, "entry", op, limits))
             lines.append("limits 100000 400 100000"); meta.append((hi, variant, "limits"))
             lines.append("eval " + hexs(BATTERY)); meta.append((hi, variant, "battery"))
+            lines.append("eval " + hexs(BATTERY2)); meta.append((hi, variant, "battery2"))
+            lines.append("jobs"); meta.append((hi, variant, "battery3"))
+    # per-entry oracle: the same entry on a fresh context under the same limits
+    iso_keys = []
+    for limits in ["limits 200 40 3000", "limits 50 10 1500", "limits 1000 100 20000", "limits 5 3 600"]:
+        for op in [e for e, _ in ENTRIES if e not in IMPURE and e != "ASYNC-UNIT"] + ["eval " + hexs(x) for x, _ in EVALS] + ["ASYNC"]:
+            lines.append("fresh"); meta.append((-1, "iso", "fresh"))
+            lines.append("eval " + hexs(DEFS)); meta.append((-1, "iso", "defs"))
+            lines.append(limits); meta.append((-1, "iso", "limits"))
+            if op == "ASYNC":
+                lines.append("call asyOk"); meta.append((-1, "iso", "skip"))
+                lines.append("jobs"); meta.append((-1, "iso", "isoentry", "jobs!", limits))
+            else:
+                lines.append(op); meta.append((-1, "iso", "isoentry", op, limits))
     rc, out, err = ck.run_bin(bins["c07"], input="\n".join(lines) + "\n", timeout=3000)
     ans = out.split("\n")[:-1]
     if rc != 0 or len(ans) != len(lines):
@@ -112,7 +136,7 @@ def run(ck):
         for p in printed.split(";"):
             if p.startswith("probe "):
                 snaps.append("snap " + p[6:])
-        if m[2] in ("entry", "battery", "defs"):
+        if m[2] in ("entry", "battery", "battery2", "battery3", "defs"):
             entries += 1
             key = comp.split(":")[0].split(" ")[0] + " " + (comp.split(" ")[1].split(":")[0] if " " in comp else "")
             kinds[key] = kinds.get(key, 0) + 1
@@ -125,9 +149,26 @@ def run(ck):
                 if bad_depth <= 5:
                     ck.fail_input({"site": "vm-depths", "input": {"history": [o for o, _ in hists[m[0]]], "entry": q if not q.startswith("eval") else "eval " + bytes.fromhex(q[5:]).decode()[:80], "variant": m[1]},
                                    "expected": "frames=1 stack=0 (theorem `balanced`: depths after a host entry = depths before)", "actual": depths + " after " + comp})
-        if m[2] == "battery":
-            battery[(m[0], m[1])] = (comp, printed)
+        if m[2].startswith("battery"):
+            battery[(m[0], m[1])] = battery.get((m[0], m[1]), ()) + (comp, printed)
+    def strip(printed):
+        return ";".join(x for x in printed.split(";") if not x.startswith("probe "))
+    iso = {}
+    for q, a, m in zip(lines, ans, meta):
+        if m[2] == "isoentry":
+            parts = a.split(" | ")
+            iso[(m[3], m[4])] = (parts[0], strip(parts[1][4:]))
     reuse_bad = 0
+    for q, a, m in zip(lines, ans, meta):
+        if m[2] == "entry" and m[0] >= 0 and (m[3], m[4]) in iso and m[3] not in IMPURE:
+            parts = a.split(" | ")
+            got = (parts[0], strip(parts[1][4:]))
+            if got != iso[(m[3], m[4])]:
+                reuse_bad += 1
+                if reuse_bad <= 3:
+                    ck.fail_input({"site": "context-reuse", "input": {"history": [o if not o.startswith("eval") else "eval " + bytes.fromhex(o[5:]).decode()[:60] for o, _ in hists[m[0]]],
+                                                                       "entry": m[3] if not m[3].startswith("eval") else "eval " + bytes.fromhex(m[3][5:]).decode()[:60], "limits": m[4]},
+                                   "expected": iso[(m[3], m[4])], "actual": got, "oracle": "the same entry on a fresh context under the same limits"})
     for hi in range(len(hists)):
         a, b = battery.get((hi, "full")), battery.get((hi, "okonly"))
         if a is None or b is None:
